@@ -985,6 +985,11 @@ impl Deref for OsIpcSharedMemory {
             "slice",
             &[("addr", self.ptr as i64), ("len", self.length as i64)],
         );
+        if self.ptr.is_null() {
+            // Zero-length regions are not mapped (see `map_file`);
+            // a slice must not be built from a null pointer, whatever its length.
+            return &[];
+        }
         unsafe { slice::from_raw_parts(self.ptr, self.length) }
     }
 }
@@ -1008,8 +1013,10 @@ impl OsIpcSharedMemory {
         unsafe {
             let store = BackingStore::new(length);
             let (address, _) = store.map_file(Some(length));
-            for element in slice::from_raw_parts_mut(address, length) {
-                *element = byte;
+            if !address.is_null() {
+                for element in slice::from_raw_parts_mut(address, length) {
+                    *element = byte;
+                }
             }
             OsIpcSharedMemory::from_raw_parts(address, length, store)
         }
@@ -1019,7 +1026,9 @@ impl OsIpcSharedMemory {
         unsafe {
             let store = BackingStore::new(bytes.len());
             let (address, _) = store.map_file(Some(bytes.len()));
-            ptr::copy_nonoverlapping(bytes.as_ptr(), address, bytes.len());
+            if !address.is_null() {
+                ptr::copy_nonoverlapping(bytes.as_ptr(), address, bytes.len());
+            }
             OsIpcSharedMemory::from_raw_parts(address, bytes.len(), store)
         }
     }
